@@ -17,7 +17,7 @@ fn budget(t: Tier) -> u64 {
 
 fn gen(seed: u64, idx: u64, _tier: Tier) -> Plan {
     let mut rng = Rng::derive(seed, "c15");
-    let example = idx % 16 == 15;
+    let example = idx % 17 == 16;
     let mut plan = Plan::new("C15", if example { "c15.example_cfg" } else { "c15.option_space" }, seed);
     let mut s = ServerSpec::basic(Mode::F, &random_seed_hex(&mut rng));
     world_knobs(&mut rng, &mut plan, false);
@@ -31,11 +31,6 @@ fn gen(seed: u64, idx: u64, _tier: Tier) -> Plan {
     s.workers = workers;
     s.workers_written = rng.chance(1, 2);
     plan.world.cores = if s.workers_written { 1 + rng.below(16) as usize } else { workers as usize };
-    if s.workers_written && s.source == ConfigSource::Env && workers != plan.world.cores as i64 {
-        // the documented environment variable for num_workers is judged by C16; here the
-        // configuration space is explored through the source that carries the value
-        s.source = ConfigSource::File;
-    }
     s.health_port = if rng.chance(1, 2) { Some(8000 + rng.below(100) as i64) } else { None };
     s.batch_size = *rng.pick(&[1i64, 2, 63, 64]);
     s.batch_written = rng.chance(3, 4);
